@@ -314,6 +314,7 @@ from .orientation import hughes
 from .orientation import chiaverini
 from .orientation import itzhack
 from .orientation import sarabandi
+from .orientation import q_correct
 
 # Other useful functions
 from ..utils.core import get_nan_intervals
@@ -3210,17 +3211,22 @@ class QuaternionArray(np.ndarray):
                          [ 0.17094453, -0.3723117 ,  0.54109885, -0.73442086],
                          [ 0.1862619 , -0.38421818,  0.5260265 , -0.73551276]])
         """
-        self.remove_jumps()
-        interpolated_quaternions = np.copy(self.array)
-        nan_intervals = get_nan_intervals(self.array)
+        if inplace:
+            self.remove_jumps()
+            array = self.array
+        else:
+            # Same jump removal, on a copy: the object must stay untouched
+            array = q_correct(self.array)
+        interpolated_quaternions = np.copy(array)
+        nan_intervals = get_nan_intervals(array)
         if len(nan_intervals) == 0:
             if inplace:
                 return None
             return interpolated_quaternions
         for interval in nan_intervals:
             interpolated_quaternions[interval[0]:interval[1]+1] = slerp(
-                self.array[interval[0]-1],
-                self.array[interval[1]+1],
+                array[interval[0]-1],
+                array[interval[1]+1],
                 t_array=np.linspace(0, 1, interval[1]-interval[0]+3)[1:-1]
                 )
         if inplace:
